@@ -45,7 +45,7 @@ def main():
         if os.path.exists(demo):
             os.makedirs(f"{WT}/crates/{demo_crate}/tests", exist_ok=True)
             shutil.copy(demo, f"{WT}/crates/{demo_crate}/tests/seeded_demo.rs")
-            feats = " --features client,server" if demo_crate.endswith("-api") else ""
+            feats = " --features client,server" if demo_crate.endswith("-api") else (" --features canonical-json" if demo_crate == "ruma-common" else "")
             rc, out = sh(f"cargo test --offline -p {demo_crate}{feats} --test seeded_demo 2>&1")
             res["demo_without_patch"] = {"exit": rc, "tail": summary(out)}
         rc, out = sh(f"git apply {d}/patch.diff")
